@@ -224,6 +224,9 @@ def search(ctx, exe, progs, per_prog):
         nodes = [(st, en, e) for (st, en, e) in pr.exprs
                  if e["k"] not in ("let", "assign", "while", "for") and is_pure(e, pure)]
         ctx.rng.shuffle(nodes)
+        # selections that contain binders of their own (match patterns, closure parameters) first: free-variable
+        # analysis has to get their scopes right
+        nodes.sort(key=lambda x: 0 if x[2]["k"] in ("match", "fun") else 1)
         for st, en, e in nodes[:per_prog]:
             for cmd in ("extract-variable", "extract-function"):
                 jobs.append((cmd, src, st, en, R.FRESH))
@@ -294,10 +297,10 @@ def run(ctx):
         return
     rng = ctx.rng
     fast = R.hook_supported(exe)
-    n = (300 if ctx.thorough else 14) if fast else (50 if ctx.thorough else 6)
+    n = (300 if ctx.thorough else 80) if fast else (50 if ctx.thorough else 6)
     progs = [R.gen_program(rng, size=6, features=FEATURES) for _ in range(n)]
     model_tie(ctx, exe, progs + [R.gen_program(rng, size=6, features=R.MODEL_FEATURES) for _ in range(n // 2)])
-    search(ctx, exe, progs, (10 ** 6 if ctx.thorough else 40) if fast else 16)
+    search(ctx, exe, progs, (10 ** 6 if ctx.thorough else 8) if fast else 16)
 
 
 def replay(ctx, rp):
